@@ -182,10 +182,9 @@ class WindowedWeightedCalibration(
                 min=torch.finfo(torch.float64).eps,
             )
         if self.enable_lifetime:
-            self.weighted_target_sum = torch.clamp(
+            weighted_calibration = self.weighted_input_sum / torch.clamp(
                 self.weighted_target_sum, min=torch.finfo(torch.float64).eps
             )
-            weighted_calibration = self.weighted_input_sum / self.weighted_target_sum
             return weighted_calibration, windowed_weighted_calibration
         return windowed_weighted_calibration
 
